@@ -1,5 +1,10 @@
 """libFuzzer campaigns for the thorough tier (imported by /verif/run).
 
+Two kinds of target: byte-level targets `t_cNN` (input = directive bytes + raw stream / parser input,
+with an in-target checksum fix-up) and the generator-driven target `t_gen` (the input bytes are the
+random source of the property's own proptest strategy, so coverage / compare feedback steers the
+structured generator; available for every property, selected by VERIF_FUZZ_PROP).
+
 The targets live in harness/fuzz (a cargo-fuzz style crate; `cargo +nightly fuzz build` works
 on it too). They are built here with plain `cargo +nightly build --release` and the same
 sanitizer-coverage flags cargo-fuzz passes, but with parallel codegen and without ASan (the
@@ -69,17 +74,39 @@ def seeds(kind, harness):
 
 
 def campaign(pid, seed, env, verif, harness, work, replays, binary):
-    if pid not in TARGETS:
-        return None
-    target, prefixes, kind, max_len = TARGETS[pid]
-    t0 = time.time()
+    """Runs the byte-level target of the property (if it has one) and then the generator-driven target
+    `t_gen` (every property), and merges the results."""
     err = build(env, harness)
     if err:
-        return {"target": target, "error": "fuzz build failed", "build_output_tail": err}
+        return {"target": "t_gen", "error": "fuzz build failed", "build_output_tail": err}
+    plans = []
+    if pid in TARGETS:
+        target, prefixes, kind, max_len = TARGETS[pid]
+        plans.append((target, prefixes, kind, max_len, False))
+    plans.append(("t_gen", [b""], "gen", 4096, True))
+    results = [_campaign_one(pid, seed + 7 * k, env, verif, harness, work, replays, binary, plan) for k, plan in enumerate(plans)]
+    merged = {
+        "targets": [{k: v for k, v in r.items() if k != "violation_lines"} for r in results],
+        "target": "+".join(r["target"] for r in results),
+        "execs": sum(r.get("execs", 0) for r in results),
+        "new_coverage_units": sum(r.get("new_coverage_units", 0) for r in results),
+        "confirmed_violations": sum(r.get("confirmed_violations", 0) for r in results),
+        "unconfirmed_artifacts": sum((r.get("unconfirmed_artifacts", []) for r in results), []),
+        "wall_s": round(sum(r.get("wall_s", 0) for r in results), 1),
+        "violation_lines": sum((r.get("violation_lines", []) for r in results), []),
+    }
+    return merged
+
+
+def _campaign_one(pid, seed, env, verif, harness, work, replays, binary, plan):
+    target, prefixes, kind, max_len, is_gen = plan
+    t0 = time.time()
     exe = os.path.join(harness, "fuzz", "target", TRIPLE, "release", target)
     jobs = int(os.environ.get("VERIF_FUZZ_JOBS", "16"))
     runs = int(os.environ.get("VERIF_FUZZ_RUNS", "1000000"))
-    base = os.path.join(work, "fuzz-" + pid)
+    if is_gen:
+        runs = int(os.environ.get("VERIF_FUZZ_GEN_RUNS", str(max(1, runs // 4))))
+    base = os.path.join(work, "fuzz-" + pid + "-" + target)
     shutil.rmtree(base, ignore_errors=True)
     os.makedirs(os.path.join(base, "artifacts"))
     sd = seeds(kind, harness)
@@ -87,11 +114,20 @@ def campaign(pid, seed, env, verif, harness, work, replays, binary):
     e = dict(env)
     e["VERIF_REPLAY_DIR"] = replays
     e["VERIF_KNOWN"] = os.path.join(verif, "known_findings.txt")
+    e["VERIF_FUZZ_PROP"] = pid
     for j in range(jobs):
         cdir = os.path.join(base, "c%02d" % j)
         os.makedirs(cdir)
         # half of the jobs start from the seed corpus, the others from (almost) nothing
-        if j % 2 == 0:
+        if is_gen:
+            # the generator-driven target starts from short random-source strings (all zero = the
+            # smallest case; a few pseudo-random ones of increasing length)
+            import random
+            rnd = random.Random(seed * 100 + j)
+            for k, n in enumerate([0, 8, 64, 256, 1024]):
+                with open(os.path.join(cdir, "seed-%d" % k), "wb") as fh:
+                    fh.write(bytes(rnd.getrandbits(8) for _ in range(n)))
+        elif j % 2 == 0:
             for k, s in enumerate(sd):
                 for pi, p in enumerate(prefixes):
                     with open(os.path.join(cdir, "seed-%03d-%d" % (k, pi)), "wb") as fh:
@@ -102,6 +138,9 @@ def campaign(pid, seed, env, verif, harness, work, replays, binary):
         log = open(os.path.join(base, "log%02d.txt" % j), "w")
         cmd = [exe, cdir, "-runs=%d" % runs, "-seed=%d" % (seed * 1000 + j + 1), "-len_control=0", "-max_len=%d" % max_len,
                "-print_final_stats=1", "-timeout=60", "-rss_limit_mb=4096", "-artifact_prefix=" + os.path.join(base, "artifacts") + "/"]
+        if j % 4 >= 2:
+            # compare feedback (value profile) on half of the jobs: lets the fuzzer home in on magic constants
+            cmd.append("-use_value_profile=1")
         procs.append((j, subprocess.Popen(cmd, cwd=base, env=e, stdout=log, stderr=subprocess.STDOUT), log))
     deadline = time.time() + float(os.environ.get("VERIF_FUZZ_TIMEOUT", "3000"))
     execs = 0
@@ -143,11 +182,18 @@ def campaign(pid, seed, env, verif, harness, work, replays, binary):
             crashed_jobs += 1
     # artifacts without a FUZZ-VIOLATION line (aborts inside the library, libFuzzer oom / timeout)
     unconfirmed = []
+    unconverted = []
     for a in sorted(glob.glob(os.path.join(base, "artifacts", "*"))):
         name = os.path.basename(a)
         if name.startswith(("crash-", "oom-", "timeout-")):
             out = os.path.join(replays, "%s-fuzz-%s.case" % (pid, name.replace("crash-", "c").replace("oom-", "o").replace("timeout-", "t")[:20]))
-            r = subprocess.run([binary("checked"), "fuzz-to-replay", pid, a, out], stdout=subprocess.PIPE, stderr=subprocess.STDOUT, text=True)
+            try:
+                r = subprocess.run([binary("checked"), "fuzz-to-replay", pid, a, out] + (["gen"] if is_gen else []),
+                                   stdout=subprocess.PIPE, stderr=subprocess.STDOUT, text=True, timeout=300)
+            except subprocess.TimeoutExpired:
+                # the artifact does not even decode to a case within five minutes: nothing to judge
+                unconverted.append(a)
+                continue
             if r.returncode == 0 and out not in violation_paths:
                 violation_paths.append(out)
     lines = []
@@ -193,6 +239,7 @@ def campaign(pid, seed, env, verif, harness, work, replays, binary):
         "jobs_timed_out": timed_out,
         "confirmed_violations": confirmed,
         "unconfirmed_artifacts": unconfirmed,
+        "artifacts_not_decodable_in_time": len(unconverted),
         "wall_s": round(time.time() - t0, 1),
         "violation_lines": lines,
     }
